@@ -528,7 +528,7 @@ class Run(object):
                "n": cfg["n"], "dim": cfg["dim"], "strict": bool(cfg["strict"]), "exact": bool(exact),
                "layout": layout, "lo16": lo16, "hi16": hi16,
                "limG": NONE if cfg["limG"] is None else cfg["limG"], "limE": NONE if cfg["limE"] is None else cfg["limE"],
-               "termG": cfg["termG"] if cfg["termG"] is not None else NONE}
+               "termG": cfg["termG"] if cfg["termG"] is not None else NONE, "inst": bool(cfg.get("inst"))}
         out = [new]
         for e in self.events:
             if e["ev"] == "Begin":
@@ -619,7 +619,16 @@ def run_config(cfg, rng):
             s = ms.BuckshotSolver(cfg["dim"], cfg["n"])
         else:
             s = ms.SparsitySolver(cfg["dim"], cfg["n"])
-        if cfg["nested"] == "DE":
+        run.term = S.gen_term(cfg["termG"]) if cfg["termG"] is not None else mt.VTR(1e-3)
+        if cfg.get("inst"):
+            # a configured solver INSTANCE without an objective: it keeps its own limits and termination, and the
+            # ensemble's bounds, constraints and penalty reach it through the objective the ensemble hands it
+            proto = nested(cfg["dim"], 4) if cfg["nested"] == "DE" else nested(cfg["dim"])
+            if limG is not None or limE is not None:
+                proto.SetEvaluationLimits(limG, limE)
+            proto.SetTermination(run.term)
+            s.SetNestedSolver(proto)
+        elif cfg["nested"] == "DE":
             s.SetNestedSolver(nested, NP=4)
         else:
             s.SetNestedSolver(nested)
@@ -629,9 +638,8 @@ def run_config(cfg, rng):
             s.SetConstraints(S.cons_grid)
         if cfg["pen"]:
             s.SetPenalty(S.pen_half)
-        if limG is not None or limE is not None:
+        if (limG is not None or limE is not None) and not cfg.get("inst"):
             s.SetEvaluationLimits(limG, limE)
-        run.term = S.gen_term(cfg["termG"]) if cfg["termG"] is not None else mt.VTR(1e-3)
         s.SetTermination(run.term)
         s.SetMapper(mapper)
 
@@ -717,6 +725,11 @@ def gen_configs(a, count, rng):
                "cons": rng.random() < 0.3, "pen": rng.random() < 0.3, "map": rng.choice(maps),
                "seed": rng.randrange(10 ** 6), "ftol": 1e-4, "gtol": rng.choice([2, 3]),
                "again": 1 if (mode == "solve" and api == "class" and rng.random() < 0.15) else 0}
+        # every fourth class-API Solve hands the ensemble a configured solver instance instead of a class
+        if api == "class" and mode == "solve" and k % 4 == 1:
+            cfg["inst"], cfg["again"] = True, 0
+            if not (cfg["strict"] or cfg["cons"] or cfg["pen"]):
+                cfg[rng.choice(["strict", "cons", "pen"])] = True
         cfgs.append(cfg)
     return cfgs
 
@@ -895,8 +908,9 @@ def explore(ck, a, cache=None, light=False, corrupt=None):
         "thread is executing",
         "energies are compared as order-preserving ranks, points as interned ids; lattice bounds are multiples of 1.5 "
         "(grid tables: of 0.75) so that cell centres are exact binary fractions",
-        "the nested solver is given as a CLASS (as the wrappers and examples do); a pre-configured solver INSTANCE is "
-        "documented to be used as it is and is outside the clause 'subject to the ensemble's settings'",
+        "the nested solver is given as a CLASS (as the wrappers and examples do) or, in every fourth class-API Solve, as a "
+        "configured solver INSTANCE without an objective: the instance keeps its own limits and termination (the run's "
+        "limits are set on it), while the ensemble's bounds, constraints and penalty must reach it through the objective",
         "ties between members are resolved as the specification transcribes __update_bestSolver (last minimal member)",
         "process-based maps (pathos/multiprocess) are not installed; thread pools and re-ordering maps stand in",
         "settings changed on the ensemble AFTER its members exist are outside the runs (they are not propagated)"]
